@@ -197,10 +197,11 @@ def run(ctx):
     model = ctx.model
     eff = E.Effects(model)
     for algo, ncls in TREE_ALGOS.items():
-        site = check_site(ctx, algo, eff)
+        fa = model.cls(algo).file
+        site = ctx.attempt("R06-SITE", fa, "%s.receive_reward" % algo, "expansion site", check_site, ctx, algo, eff)
         if site is not None:
-            check_pred(ctx, algo, site)
-        check_init(ctx, algo, ncls)
+            ctx.attempt("R06-PRED", fa, algo, "expansion predicate", check_pred, ctx, algo, site)
+        ctx.attempt("R06-INIT", fa, ncls, "new cells", check_init, ctx, algo, ncls)
         import_rules(ctx, algo)
         if algo != "T_HOO":
             tmp = Ctx(ctx.prop, ctx.tier, ctx.seed, model)
